@@ -51,6 +51,11 @@ CLAIMED = {
         text="Logger: header is one complete line; each call is exactly one write of a newline-terminated line then flush, no seek/truncate; after each call header + one flushed line per call; a crash after any operation keeps all completed lines. Trajectory: one frame then flush per call, earlier bytes untouched, crash keeps earlier frames. Restart: the document written is the simulation's todict; after each call exactly one document of the latest state for modes a and w (also when shorter); crash obligations hold except after truncate()/before the flush completes, where the file is empty or partial: recorded as known finding F25, so this is NOT a proof of the whole property. ObserverManager.close closes each attached file once and pending output reaches the file.",
         note="file-object semantics, write_json (one write of obj.todict()) and write_xyz (frame in two writes) are trusted contracts; process death only (no fsync/power loss).",
         design="§7 C16"),
+    "C08": dict(
+        technique="contract-based deductive verification: classes found by introspection of the interpreted package; real constructors on symbolic parameters, real to_dict, JSON identity (trusted), real registry lookup and from_dict; attribute-wise equality and dictionary stability discharged by z3; Python's import algorithm executed over the package sources for every module as first import; native round trips through ase jsonio and fresh interpreters as stand-in",
+        text="For every concrete operation, integrator, move, composite (nested), criteria and MoveStorage found by introspection and for all parameter values: rebuilt type identical, every attribute (constructor parameters, masks, tunables max_attempts/default_label incl. 0 and None; callables excepted) equal, second dictionary identical; six Monte Carlo drivers through todict/JSON/from_dict preserve temperature, pressure, external stress, chemical potential, particle count, accessible volume, exchange species, cycles, seed, generator state, step counter, move table and context; every context class carries each of its settings in its dictionary; whichever of the package's modules is imported first, all imports succeed and every class is registered under its name.",
+        note="JSON identity of ase.io.jsonio trusted; label arrays concrete; CompositeExchangeMove.bias_towards_insert (undocumented, not a constructor parameter) not claimed; base/stub classes (BaseMove, BaseOperation, ...) are not 'concrete components'.",
+        design="§7 C08"),
 }
 PENDING_REASON = "check not yet registered in this revision (under construction; see DESIGN.md §0/§7 for the plan)"
 
